@@ -498,6 +498,7 @@ fn judge(
                     anc.iter().any(|a| {
                         not_models.values().any(|nm| nm.installed(a) == Some(Verdict::Tree))
                             && crate::props_query::c09_class(&asts, a).is_some()
+                            && crate::props_query::some_alternative_claims_always(&asts, a)
                     })
                 });
             if prefixed {
@@ -992,7 +993,12 @@ fn c03_partition_check(rep: &Report, c: &mut Counters, l: &Layer) {
                 }
                 cands.into_iter().filter(|p| p != q && e.accepts(p)).max_by_key(|p| p.len()).unwrap_or_default()
             };
-            let class = crate::props_query::c09_class(&asts, &anc_path);
+            let class = if crate::props_query::some_alternative_claims_always(&asts, &anc_path) {
+                crate::props_query::c09_class(&asts, &anc_path)
+            }
+            else {
+                None
+            };
             let tag = format!("sound {:?}", class);
             if seen.contains(&tag) {
                 continue;
